@@ -56,6 +56,12 @@ func writeObjectFile(dir string, cfg Config, x *Rec) error {
 	return os.WriteFile(filepath.Join(dir, name), b, 0o700)
 }
 
+func writeGz(buf *bytes.Buffer, b []byte) {
+	zw, _ := gzip.NewWriterLevel(buf, gzip.BestSpeed)
+	zw.Write(b)
+	zw.Close()
+}
+
 // editSchema decodes schema.json preserving numbers, applies f, writes it back.
 func editSchema(dir string, f func(s map[string]interface{}) error) error {
 	p := filepath.Join(dir, "schema.json")
